@@ -4,6 +4,7 @@ import (
 	"bufio"
 	"bytes"
 	"context"
+	"encoding/json"
 	"errors"
 	"fmt"
 	"io"
@@ -67,6 +68,12 @@ func (c *rwCore) accept(n int) (int, error) {
 		if c.writes >= 2 {
 			zsim.Fault("rw_error")
 			return 0, errors.New("connection reset")
+		}
+	case 4:
+		// the very first body write is refused
+		if c.writes == 1 {
+			zsim.Fault("rw_first_write_fails")
+			return 0, errors.New("broken pipe")
 		}
 	case 3:
 		// the write fails after part of it was accepted: (n>0, err)
@@ -292,6 +299,65 @@ func (r *c18Run) serve(h http.Handler, q *c18Req) {
 	h.ServeHTTP(w, q.req)
 }
 
+func firstOr(bs [][]byte) []byte {
+	if len(bs) == 0 {
+		return nil
+	}
+	return bs[0]
+}
+
+func hostOnly(hp string) string {
+	if hp == "" {
+		return ""
+	}
+	h, _, err := net.SplitHostPort(hp)
+	if err != nil {
+		return hp
+	}
+	return h
+}
+
+// checkFields compares the fields of the request's first event with what the
+// handlers of the chain are documented to log for this request.
+func (r *c18Run) checkFields(q *c18Req, picks []int) string {
+	if len(q.ref) == 0 {
+		return ""
+	}
+	var ev map[string]interface{}
+	if err := json.Unmarshal(q.ref[0], &ev); err != nil {
+		return "" // not this property's business
+	}
+	req := q.req
+	want := map[int][2]string{
+		0:  {"url", req.URL.String()},
+		1:  {"method", req.Method},
+		2:  {"request", req.Method + " " + req.URL.String()},
+		3:  {"ip", req.RemoteAddr},
+		4:  {"ip_only", hostOnly(req.RemoteAddr)},
+		5:  {"ua", req.Header.Get("User-Agent")},
+		6:  {"referer", req.Header.Get("Referer")},
+		7:  {"proto", req.Proto},
+		8:  {"httpv", strings.TrimPrefix(req.Proto, "HTTP/")},
+		10: {"custom", req.Header.Get("X-Custom")},
+		11: {"host", req.Host},
+		12: {"host_noport", hostOnly(req.Host)},
+	}
+	for _, p := range picks {
+		w, ok := want[p%15]
+		if !ok {
+			continue
+		}
+		got, present := ev[w[0]]
+		if w[1] == "" {
+			continue
+		}
+		if !present || got != w[1] {
+			return fmt.Sprintf("field %q is %v, the request's value is %q", w[0], got, w[1])
+		}
+	}
+	return ""
+}
+
 func mkParent(kind int, w io.Writer) zerolog.Logger {
 	switch kind {
 	case 1:
@@ -348,12 +414,26 @@ func (c18World) Run(prop string, ch *zsim.Choices, trace bool) *RunResult {
 		R := 2 + ch.Intn(4)
 		for i := 0; i < R; i++ {
 			req, _ := http.NewRequest([]string{"GET", "POST", "PUT", "DELETE", "PATCH"}[i%5], fmt.Sprintf("http://host%d.example:80%d/path/%d?q=%d", i, i, i, i), nil)
-			req.RemoteAddr = fmt.Sprintf("10.0.0.%d:%d", i+1, 4000+i)
+			// remote addresses and hosts in every notation a server or a RealIP middleware leaves
+			// behind: host:port, bracketed IPv6 with port, bare IPv6, bare IPv4
+			req.RemoteAddr = []string{
+				fmt.Sprintf("10.0.0.%d:%d", i+1, 4000+i),
+				fmt.Sprintf("[2001:db8::%x]:%d", i+1, 4000+i),
+				fmt.Sprintf("2001:db8::%x", i+10),
+				fmt.Sprintf("192.168.7.%d", i+1),
+				fmt.Sprintf("::%x", i+1),
+			}[ch.Intn(5)]
+			req.Host = []string{
+				fmt.Sprintf("host%d.example:80%d", i, i),
+				fmt.Sprintf("host%d.example", i),
+				fmt.Sprintf("[2001:db8::a%x]:443", i),
+				fmt.Sprintf("[2001:db8::b%x]", i),
+			}[ch.Intn(4)]
 			req.Header.Set("User-Agent", fmt.Sprintf("agent-%d", i))
 			req.Header.Set("Referer", fmt.Sprintf("http://ref%d/", i))
 			req.Header.Set("X-Custom", fmt.Sprintf("custom-%d", i))
 			req.Proto = []string{"HTTP/1.1", "HTTP/2.0", "HTTP/1.0"}[i%3]
-			q := &c18Req{i: i, req: req, rwMode: ch.Weighted(3, 1, 1, 1), rwKind: ch.Intn(3), panics: ch.Weighted(6, 1, 1)}
+			q := &c18Req{i: i, req: req, rwMode: ch.Weighted(3, 1, 1, 1, 1), rwKind: ch.Intn(3), panics: ch.Weighted(6, 1, 1)}
 			if baseCtx != nil {
 				q.req = req.WithContext(baseCtx)
 			}
@@ -390,6 +470,13 @@ func (c18World) Run(prop string, ch *zsim.Choices, trace bool) *RunResult {
 			r.serve(h, q)
 		}
 		r.solo = nil
+		// the reference run itself is checked against the request: every field a handler of
+		// the chain adds must carry this request's value in its documented form
+		for _, q := range r.reqs {
+			if v := r.checkFields(q, picks); v != "" {
+				zsim.Fail("C18.values", "request %d: %s; first event: %s", q.i, v, clip(firstOr(q.ref), 400))
+			}
+		}
 		s.ArmDraw([]string{"hlog/", "log.go", "context.go", "ctx.go", "event.go"})
 		var ts []*zsim.Task
 		for _, q := range r.reqs {
